@@ -70,6 +70,11 @@ Follow(u, f, r, kind, seen) ==
         LET tf == TargetFile(f, r)  i == SlotAt(u, tf, kind, "") IN
         IF i = 0 \/ ~IsConcrete(u.slots[i].c) \/ InlAt(u.slots[i].c, r.frag[2]) = "" THEN [fail |-> "dangling"]
         ELSE [id |-> InlAt(u.slots[i].c, r.frag[2]), slot |-> i]
+   ELSE IF r.frag # <<>> /\ r.frag[1] = "#pathinl"
+   THEN \* a JSON pointer into a path item of the target document (<<"#pathinl", path name, site>>): the inline object there
+        LET tf == TargetFile(f, r)  i == SlotAt(u, tf, "pathItems", r.frag[2]) IN
+        IF i = 0 \/ ~IsConcrete(u.slots[i].c) \/ InlAt(u.slots[i].c, r.frag[3]) = "" THEN [fail |-> "dangling"]
+        ELSE [id |-> InlAt(u.slots[i].c, r.frag[3]), slot |-> i]
    ELSE
    LET tf == TargetFile(f, r)
        k  == IF r.frag = <<>> THEN kind ELSE r.frag[1]
@@ -122,8 +127,10 @@ JoinSlash(p) == IF p = <<>> THEN "" ELSE IF Len(p) = 1 THEN p[1] ELSE p[1] \o "/
 SiteKey(site) == CASE site = "properties" -> "properties/p" [] site = "items" -> "items" [] OTHER -> site
 (* RFC 6901: in a pointer token "~" is written ~0 and "/" is written ~1 *)
 EscName(n) == CASE n = "a/b" -> "a~1b" [] n = "a~1b" -> "a~01b" [] n = "a~b" -> "a~0b" [] n = "a~0b" -> "a~00b" [] OTHER -> n
+PathSiteKey(site) == CASE site = "post.requestBody.schema" -> "post/requestBody/content/application~1json/schema" [] OTHER -> site
 RefText(r) == JoinSlash(r.path) \o (IF r.frag = <<>> THEN ""
                                    ELSE IF r.frag[1] = "#inl" THEN "#/" \o SiteKey(r.frag[2])
+                                   ELSE IF r.frag[1] = "#pathinl" THEN "#/paths/~1" \o r.frag[2] \o "/" \o PathSiteKey(r.frag[3])
                                    ELSE IF r.frag[1] = "#coll" THEN "#/components/" \o r.frag[2]        \* a whole collection: an object, but of no kind
                                    ELSE IF r.frag[1] = "pathItems" THEN "#/paths/~1" \o r.frag[2]      \* the path "/<name>" of the target document
                                    ELSE "#/components/" \o r.frag[1] \o "/" \o EscName(r.frag[2]))
